@@ -6,5 +6,7 @@ CONSTANTS
   Monotone = FALSE
   Ticks = FALSE
   IdleRec = FALSE
+  Cap = 1
+  Eager = FALSE
 INVARIANTS TypeOK Inv_Pending Inv_ParkedNext
 VIEW ViewTour
